@@ -264,6 +264,10 @@ def _worker(job):
         for known_t in tlists:           # known transcript (features = its exons / introns / split blocks)
             k_exons = list(known_t)
             k_introns = C.runs(set(range(known_t[0][0], known_t[-1][1] + 1)) - C.U(known_t))
+            # ONE constructor per (feature kind, delta) profiles all reads of this transcript, as in the pipeline (one constructor per gene);
+            # every returned profile is looked at again after the last read (a later call must not change an earlier result)
+            pcs = {}
+            returned = []
             for read in tlists:
                 idx += 1
                 if idx % nparts != part:
@@ -283,11 +287,14 @@ def _worker(job):
                         r_introns = C.runs(set(range(read[0][0], read[-1][1] + 1)) - C.U(read))
                         if all(sum(1 for r in r_introns if abs(f[0] - r[0]) <= delta and abs(f[1] - r[1]) <= delta) <= 1
                                for f in k_introns):
-                            pc = lrp.OverlappingFeaturesProfileConstructor(k_introns, gene_region,
-                                                                           comparator=partial(common.equal_ranges, delta=delta),
-                                                                           delta=delta)
+                            if ("i", delta) not in pcs:
+                                pcs[("i", delta)] = lrp.OverlappingFeaturesProfileConstructor(k_introns, gene_region,
+                                                                                              comparator=partial(common.equal_ranges, delta=delta),
+                                                                                              delta=delta)
+                            pc = pcs[("i", delta)]
                             mp = _call(res, "construct_intron_profile", pc.construct_intron_profile, blocks)
                             if mp is not None:
+                                returned.append(("construct_intron_profile", mp, list(mp.gene_profile), list(mp.read_profile), blocks))
                                 exp = C.expected_overlapping_profile(k_introns, r_introns, (read[0][0], read[-1][1]), delta)
                                 C._rec("construct_intron_profile", C.profile_agrees(mp.gene_profile, exp), (k_introns, blocks, delta), mp.gene_profile)
                                 if not C.profile_agrees(mp.gene_profile, exp):
@@ -315,11 +322,14 @@ def _worker(job):
                                                                 (mt.gene_profile, mt.gene_profile_range, exp_t, rng_, mp.gene_profile)))
                     # exons (used for --count_exons)
                     if all(sum(1 for r in blocks if abs(f[0] - r[0]) <= delta and abs(f[1] - r[1]) <= delta) <= 1 for f in k_exons):
-                        pc = lrp.OverlappingFeaturesProfileConstructor(k_exons, gene_region,
-                                                                       comparator=partial(common.equal_ranges, delta=delta),
-                                                                       delta=delta)
+                        if ("e", delta) not in pcs:
+                            pcs[("e", delta)] = lrp.OverlappingFeaturesProfileConstructor(k_exons, gene_region,
+                                                                                          comparator=partial(common.equal_ranges, delta=delta),
+                                                                                          delta=delta)
+                        pc = pcs[("e", delta)]
                         mp = _call(res, "construct_exon_profile", pc.construct_exon_profile, blocks)
                         if mp is not None:
+                            returned.append(("construct_exon_profile", mp, list(mp.gene_profile), list(mp.read_profile), blocks))
                             mr = (blocks[0][1] + delta, blocks[-1][0] - delta)
                             exp = C.expected_overlapping_profile(k_exons, blocks, mr, delta)
                             C._rec("construct_exon_profile", C.profile_agrees(mp.gene_profile, exp), (k_exons, blocks, delta), mp.gene_profile)
@@ -327,9 +337,12 @@ def _worker(job):
                                 res["viol"].append(("construct_exon_profile:wrong-result",
                                                     repr((k_exons, blocks, delta)), "%s expected %s" % (mp.gene_profile, exp)))
                 # split-exon profile (default comparator: overlaps)
-                pc = lrp.NonOverlappingFeaturesProfileConstructor(k_exons)
+                if "s" not in pcs:
+                    pcs["s"] = lrp.NonOverlappingFeaturesProfileConstructor(k_exons)
+                pc = pcs["s"]
                 mp = _call(res, "construct_profile", pc.construct_profile, blocks)
                 if mp is not None:
+                    returned.append(("NonOverlapping.construct_profile", mp, list(mp.gene_profile), list(mp.read_profile), blocks))
                     exp = C.expected_nonoverlapping_profile(k_exons, blocks)
                     C._rec("construct_profile", mp.gene_profile == exp, (k_exons, blocks), mp.gene_profile)
                     if mp.gene_profile != exp:
@@ -337,6 +350,13 @@ def _worker(job):
                                             repr((k_exons, blocks)), "%s expected %s" % (mp.gene_profile, exp)))
                 if len(known_t) >= 2 and len(read) >= 2:
                     res["nontrivial"] += 1
+            for nm, mp, gp, rp, blocks in returned:
+                res["profiles_looked_at_again"] = res.get("profiles_looked_at_again", 0) + 1
+                if list(mp.gene_profile) != gp or list(mp.read_profile) != rp:
+                    res["viol"].append((nm + ":earlier-result-changed-by-a-later-call", repr((known_t, blocks)),
+                                        "profile %s / %s when returned, %s / %s after the other reads of the transcript were profiled" %
+                                        (gp, rp, list(mp.gene_profile), list(mp.read_profile))))
+                    break
     elif kind == "splitprofiles":
         # NonOverlappingFeaturesProfileConstructor with the comparator the pipeline gives it (overlaps_at_least_when_overlap, minimal overlap md):
         # features = disjoint segments (touching allowed, as produced by split_exons), reads = gapless blocks
@@ -504,6 +524,7 @@ def run(chk, scratch):
             nontriv += res["nontrivial"]
             chk.count("model_gene_isoform_profiles_checked", res.get("model_gene_profiles", 0))
             chk.count("intron_profiles_with_tail_positions_checked", res.get("tail_cases", 0))
+            chk.count("profiles_looked_at_again_after_later_calls", res.get("profiles_looked_at_again", 0))
             chk.count("split_profiles_with_pipeline_comparator", res.get("split_profile_cases", 0))
             chk.count("profiles_built_from_command_line_options", res.get("option_profile_cases", 0))
             for k, v in res["counts"].items():
